@@ -78,7 +78,13 @@ def step (s : St) (ws : List String) : St × String :=
       let (p', b) := process p (ts.filterMap id) leader grp
       (noteBatch { s with p := some p' } b, showOpt b)
     else (s, "bad-op")
-  | ["gen"] => let (p', b) := generate p; (noteBatch { s with p := some p' } b, showOpt b)
+  | ["gen"] =>
+    let (p', b) := generate p
+    -- the hypothesis of C18_never_below_commit_nonce, evaluated on the pool the batch is built from: everything batched and
+    -- uncommitted lies at or above its account's committed nonce (the cached one, else the ledger's)
+    let cnOf (a : String) : Nat := match KV.get p.commitN a with | some n => n | none => KV.getD p.ledger a 0
+    let above := p.batched.all (fun x => decide (cnOf x.1 ≤ x.2))
+    (noteBatch { s with p := some p' } b, showOpt b ++ " ##m abovecn=" ++ (if above then "1" else "0"))
   | "commit" :: hs => ({ s with p := some (commit p hs) }, "ok")
   | ["commitready", j] =>
     -- a block of another leader: the first ready transaction (priority order) that is not batched here, whose account has
